@@ -35,6 +35,7 @@ func (x *Exec) freshResult(st *State, sig *types.Signature, hint string) Val {
 		v := x.freshVar("ret_"+hint, sortOfStatic(t))
 		st.add(rangeFacts(v, t)...)
 		x.allocFactsLoose(st, v, t)
+		x.typeInvFacts(st, v, t)
 		return Val{T: v}
 	}
 	switch rs.Len() {
@@ -589,6 +590,9 @@ func (x *Exec) doReturn(st *State, r *ssa.Return) {
 	for _, v := range r.Results {
 		st.results = append(st.results, Val{T: x.term(st, x.val(st, v), v.Type())})
 	}
+	if x.full {
+		x.checkTypeInvs(st, r)
+	}
 	if x.ct != nil && x.full {
 		for i, en := range x.ct.Ensures {
 			t, ok := x.evalSpec(st, en.Expr, "post")
@@ -704,6 +708,28 @@ func (x *Exec) checkFrame(st *State, r *ssa.Return) {
 		ent := x.entry.ghostInt(ghSpawn)
 		if cur.Key() != ent.Key() {
 			x.oblige(st.clone(), "frame", ":spawn", Eq(cur, ent), r.Pos(), "no goroutine started (spawned() not in modifies)")
+		}
+	}
+}
+
+// checkTypeInvs: every object of a type with a declared invariant that this path allocated
+// satisfies the invariant when the function returns.
+func (x *Exec) checkTypeInvs(st *State, r *ssa.Return) {
+	var allocs []*ssa.Alloc
+	for a := range st.objOf {
+		allocs = append(allocs, a)
+	}
+	sort.Slice(allocs, func(i, j int) bool { return allocs[i].Pos() < allocs[j].Pos() })
+	for _, a := range allocs {
+		t := derefType(a.Type())
+		for _, ti := range x.P.typeInvsOf(t) {
+			env := &Env{x: x, st: st, old: st, fn: x.fn, binds: map[string]specBinding{"self": {Val{T: st.objOf[a]}, a.Type()}}, mode: "typeinv", pkg: x.P.pkgByPath(ti.Pkg)}
+			g := env.eval(ti.Clause.Expr)
+			if env.err != nil {
+				x.specError(ti.Clause.Expr, env.err)
+				continue
+			}
+			x.oblige(st.clone(), "typeinv", ":"+ti.Type, g.T, a.Pos(), "type invariant of "+ti.Type+" established by the allocating function: "+ti.Clause.Text)
 		}
 	}
 }
